@@ -120,6 +120,7 @@ func c03Formats() []*c03Format {
 				{Name: "crlf", Text: ">a\r\nAC\r\n>b\r\nGT\r\n"},
 				{Name: "protein", Text: ">p1\nMKV*\n>p2\nMRV*\n"},
 				{Name: "duplicate-names", Text: ">a\nAC\n>a\nAC\n>a\nGT\n"},
+				{Name: "duplicate-names-generated-form", Text: ">a_0001\nAC\n>a\nAC\n>a\nGT\n>a_0002\nGG\n"},
 				{Name: "blank-lines-and-spaces", Text: "\n>a\nA C G\n\n>b\nT T T\n"},
 				{Name: "one-by-one", Text: ">1\n-\n"},
 				{Name: "unaligned", Text: ">a\nACGT\n>b\nAC\n"},
@@ -153,6 +154,7 @@ func c03Formats() []*c03Format {
 				{Name: "stream-with-blank-line", Text: "2 2\na AC\nb GT\n\n2 2\na AC\nb GT\n", Relaxed: true},
 				{Name: "crlf", Text: "2 2\r\na AC\r\nb GT\r\n", Relaxed: true},
 				{Name: "duplicate-names", Text: "3 2\na AC\na AC\na GT\n", Relaxed: true},
+				{Name: "duplicate-names-generated-form", Text: "4 2\na_0001 AC\na AC\na GT\na_0002 GG\n", Relaxed: true},
 				{Name: "blocks-of-ten", Text: "1 12\nx ACGTACGTAC GT\n", Relaxed: true},
 				{Name: "protein", Text: "2 3\np1 MKV\np2 MRV\n", Relaxed: true},
 				{Name: "writer-tiny-strict", Text: phylip.WriteAlignment(tiny, true, false, false), Strict: true, Relaxed: true},
@@ -224,6 +226,7 @@ func c03Formats() []*c03Format {
 				{Name: "trailing-blank-lines", Text: "CLUSTAL W\n\n1cms   --GE\n4pep   ---I\n         \n\n\n"},
 				{Name: "crlf", Text: "CLUSTAL W\r\n\r\na AC\r\nb GT\r\n    \r\n"},
 				{Name: "duplicate-names", Text: "CLUSTAL W\n\na AC\na AC\na GT\n    \n"},
+				{Name: "duplicate-names-generated-form", Text: "CLUSTAL W\n\na_0001 AC\na AC\na GT\n    \n"},
 				{Name: "numeric-names", Text: "CLUSTAL 2.1\n\n1 MKV\n22 MRV\n   * *\n"},
 				{Name: "repo-test-clustalstring2", Text: c03RepoClustal2},
 				{Name: "repo-test-clustalstring1", Text: c03RepoClustal1, Thorough: true},
